@@ -171,6 +171,9 @@ func (r *Receiver) SegmentHandlerFunc(w http.ResponseWriter, req *http.Request) 
 			}
 			seg := chunk.Segments[0]
 			moof := seg.Fragments[0].Moof
+			if moof == nil || moof.Mfhd == nil || moof.Traf == nil || moof.Traf.Tfhd == nil || moof.Traf.Tfdt == nil || moof.Traf.Trun == nil {
+				return fmt.Errorf("incomplete movie fragment in chunk %d (mfhd, traf, tfhd, tfdt and trun are needed)", rsd.chunkNr)
+			}
 			ch.mu.RLock()
 			trd, ok := ch.trDatas[trName]
 			ch.mu.RUnlock()
@@ -445,13 +448,16 @@ func processInitSegment(log *slog.Logger, ch *channel, s stream, data []byte, is
 			return nil, fmt.Errorf("failed to write original init segment: %w", err)
 		}
 	}
-	iSeg, err := mp4.DecodeFileSR(sr)
+	iSeg, err := decodeInitSegment(sr)
 	if err != nil {
 		return nil, fmt.Errorf("failed to decode init segment: %w", err)
 	}
 	init := iSeg.Init
 	if init == nil || init.Ftyp == nil || init.Moov == nil {
 		return nil, fmt.Errorf("no complete init segment (ftyp + moov) found")
+	}
+	if err := checkInitBoxes(init); err != nil {
+		return nil, err
 	}
 	err = ch.addInitDataAndUpdateTimescale(s, init)
 	if err != nil {
@@ -463,6 +469,54 @@ func processInitSegment(log *slog.Logger, ch *channel, s stream, data []byte, is
 		return nil, fmt.Errorf("failed to encode wvtt init segment: %w", err)
 	}
 	return sw.Bytes(), nil
+}
+
+// decodeInitSegment decodes an uploaded init segment. The mp4 library panics on a moov box
+// that lacks some of its mandatory children; an upload must not be able to do that to the handler.
+func decodeInitSegment(sr bits.SliceReader) (f *mp4.File, err error) {
+	defer func() {
+		if r := recover(); r != nil {
+			f, err = nil, fmt.Errorf("incomplete moov box: %v", r)
+		}
+	}()
+	return mp4.DecodeFileSR(sr)
+}
+
+// checkInitBoxes reports the first box of an uploaded init segment that is missing although the
+// receiver (or the re-encoding of the init segment) relies on it.
+func checkInitBoxes(init *mp4.InitSegment) error {
+	moov := init.Moov
+	missing := ""
+	switch {
+	case moov.Mvhd == nil:
+		missing = "mvhd"
+	case moov.Trak == nil:
+		missing = "trak"
+	case moov.Trak.Tkhd == nil:
+		missing = "tkhd"
+	case moov.Trak.Mdia == nil:
+		missing = "mdia"
+	case moov.Trak.Mdia.Mdhd == nil:
+		missing = "mdhd"
+	case moov.Trak.Mdia.Hdlr == nil:
+		missing = "hdlr"
+	case moov.Trak.Mdia.Minf == nil:
+		missing = "minf"
+	case moov.Trak.Mdia.Minf.Stbl == nil:
+		missing = "stbl"
+	case moov.Trak.Mdia.Minf.Stbl.Stsd == nil:
+		missing = "stsd"
+	case moov.Trak.Mdia.Minf.Stbl.Stts == nil:
+		missing = "stts"
+	case moov.Mvex == nil:
+		missing = "mvex"
+	case moov.Mvex.Trex == nil:
+		missing = "trex"
+	}
+	if missing != "" {
+		return fmt.Errorf("init segment has no %s box", missing)
+	}
+	return nil
 }
 
 func handleMPD(w http.ResponseWriter, req *http.Request, storage, chName string) {
